@@ -162,6 +162,8 @@ type History struct {
 	ValSets  map[int64]ValSet // validator set in force at each height
 	Blocks   []*Block
 	Results  []*BlockResult
+	// Cur is the block being executed (valid inside taps).
+	Cur *Block
 	PathUsed map[Path]int
 
 	// Outcome
@@ -472,6 +474,7 @@ func (h *History) Step() bool {
 	}
 
 	// Reference replica: plain replay with taps.
+	h.Cur = b
 	var ref *BlockResult
 	if p := guard("Finalize", h.Ref, height, func() { ref = h.Ref.Finalize(b, nil) }); p != nil {
 		if isPrecondition(p.Value) {
